@@ -48,6 +48,24 @@ Proof. vm_compute. reflexivity. Qed.
 Lemma safe_backend_confined : forallb (method_confined trait_methods) trait_methods = true.
 Proof. vm_compute. reflexivity. Qed.
 
+(** no default body touches the host: the scan of every default body for file-system probes
+    (exists, is_file, metadata, read_dir, canonicalize ...), std::fs / env / process / net / io /
+    thread / time, clocks, stdin/stdout/stderr, print macros and unsafe finds nothing, except in the
+    two listed clock / time-zone defaults; and every default that is neither a denial nor a
+    composition has exactly its listed constant text.  A backend that overrides nothing (and SafeSys,
+    whose overrides are the in-memory ones) therefore makes no host call but those two. *)
+Lemma defaults_host_free :
+  forallb (fun mt => match snd mt with [] => true | _ => smem (fst mt) host_reading_defaults end) default_host_tokens = true.
+Proof. vm_compute. reflexivity. Qed.
+Lemma defaults_bodies_listed :
+  forallb (fun nb => smem (fst nb) host_reading_defaults && negb (smem (fst nb) (map fst benign_bodies)) ||
+                     match assoc (fst nb) benign_bodies with Some b => String.eqb b (snd nb) | None => false end)
+          default_other_bodies = true.
+Proof. vm_compute. reflexivity. Qed.
+Lemma defaults_cover_trait :
+  forallb (fun m => match snd m with DRequired => true | _ => is_some (assoc (fst m) default_host_tokens) end) trait_methods = true.
+Proof. vm_compute. reflexivity. Qed.
+
 (** the property-level statement about SafeSys drawn from the three tables: a trait method that
     changes state and is not one of SafeSys's in-memory overrides has a default body that answers
     "not supported", is a listed no-op, or only composes such methods *)
